@@ -5,7 +5,7 @@
 From Coq Require Import List String Ascii Bool Permutation Lia.
 Import ListNotations.
 From DI Require Import Syntax Tokens Bounds Param Subs Superset Substitute Spec RustSem Group Search Gen GenMain Validate IMap Hygiene Dispatch Examples ExamplesGroup ExamplesF16.
-From DI.proofs Require Import Basics SupersetSound SupersetExact SupersetComplete SupersetWf SubstituteProofs SubstituteSpec SubstituteNoDup BoundsProofs DispatchProofs GroupProofs SearchProofs SearchFlat SearchNested SearchRows FlatSemantics FlatConcrete GenProofs GenMainProofs GenMainArgs GenMainKeys ParamProofs ParamNames ParamAlpha ParamCanon ParamOrder ParamIdem RustSemProofs ValidateProofs IMapProofs HygieneProofs.
+From DI.proofs Require Import Basics SupersetSound SupersetExact SupersetIdentity SupersetComplete SupersetWf SubstituteProofs SubstituteSpec SubstituteNoDup BoundsProofs DispatchProofs GroupProofs SearchProofs SearchFlat SearchNested SearchRows FlatSemantics FlatConcrete GenProofs GenMainProofs GenMainArgs GenMainKeys ParamProofs ParamNames ParamAlpha ParamCanon ParamOrder ParamIdem RustSemProofs ValidateProofs IMapProofs HygieneProofs.
 
 (* ===================================================================================== *)
 (* C09 -- header generalisation is exact first-order matching                             *)
@@ -101,6 +101,17 @@ Proof.
   eexists. split; [vm_compute; reflexivity|discriminate].
 Qed.
 Print Assumptions C09_reflexive_nonvacuous.
+
+(* the converse of reflexivity: a match that instantiates no parameter is an equality -- the
+   two headers are the same up to the congruence, and syntactically equal when plain.  With
+   C09_reflexive: "generalises with the all-identity substitution" IS "same header". *)
+Theorem C09_identity_match_is_equality : forall a b s, sup a b = Some s ->
+  (forall p v, In (p, v) s -> v = VIdentity) ->
+  equivb a b = true /\ (plain a = true -> plain b = true -> a = b).
+Proof.
+  intros a b s H Hid. split; [exact (sup_identity_equiv a b s H Hid)|exact (sup_identity_eq a b s H Hid)].
+Qed.
+Print Assumptions C09_identity_match_is_equality.
 
 (* ===================================================================================== *)
 (* C10 -- bound re-expression over a more general header is exact                         *)
